@@ -6,7 +6,8 @@ order, odd frame indices, rows removed between panel() and the model), strictly
 positive per-observation formulas inside PanelLikelihoodTrajectory, optionally
 under MonteCarlo with deterministic generators whose value encodes
 (individual index, draw index); non-contiguous tables; formulas with a row
-variable outside the trajectory.
+variable outside the trajectory; directed (seed-independent) cases that
+reproduce the recorded findings at every run (modes 'outside', 'hugeid').
 
 Monitors (biomon/oracle/c09_monitor.py, c09_ref.py):
  * contract on Database.panel / build_panel_map: individuals <-> map rows
@@ -39,7 +40,8 @@ RULE = (
     'optionally rows removed after panel()) x generated strictly positive per-observation formulas (depth<=3, with '
     'logit probabilities and parameters) inside PanelLikelihoodTrajectory, half of them under MonteCarlo with 1-8 '
     'draws from deterministic generators encoding (individual, draw), 1-7 threads, parameter values different from '
-    'the initial ones; plus non-contiguous tables and formulas with a row variable outside the trajectory. A case is '
+    'the initial ones; plus non-contiguous tables, formulas with a row variable outside the trajectory, and directed '
+    'tables with 16-digit integer ids that collide in float64. A case is '
     'non-trivial when the table has >= 2 rows and the reference evaluator accepts the trajectory value as regular and '
     'well-conditioned (float64 vs 80-bit agreement 1e-12); distinct = hash of (table as presented, ids, formula, '
     'parameters, draws)'
@@ -454,7 +456,6 @@ def run_case(case):
     rec.c('mode_' + spec['mode'])
     if spec['mode'] == 'outside':
         _run_outside(cx)
-        rec.key(['outside', spec['canon'], spec['pres_a'], spec['pres_b'], spec['formulas']])
         for k, v in mon.COUNT.items():
             rec.c(k, v)
         return rec.out()
